@@ -33,7 +33,7 @@ PROPS = {
     },
     "C01": sysprop(["C01"], ["default", "exit", "local"], 250, 4000, GEN_RULE + "; plus live scenarios with the real background "
                    "thread (20 ms interval) and the real flush(): 1-3 worker threads, hand-off of spans, exit right after finishing; "
-                   "delivery without any further call within 3 s, or by the return of flush()",
+                   "delivery without any further call within 10 s, or by the return of flush()",
                    extra=[S.verdict_stream_for("live", "core", "live", 12, 300, shards=4)]),
     "C07": sysprop(["C07"], ["mixed", "overload", "adapters", "local", "exit"], 200, 3000, GEN_RULE + "; plus tracing calls issued "
                    "from a thread-local destructor registered before / after fastrace's own thread-locals", release_too=True,
@@ -63,7 +63,7 @@ PROPS = {
                              "of the generated code into API calls is written by hand per bracket shape"],
             "assumptions": ["the theorem is about the shape of the generated body, not about syn/quote or Rust's ownership rules",
                             "the order in which unused by-value arguments are dropped is not claimed"]},
-    "C18": sysprop(["C18"], ["mixed", "local", "default", "adapters"], 150, 3000,
+    "C18": sysprop(["C18"], ["mixed", "local", "collect", "adapters"], 150, 3000,
                    GEN_RULE + "; C18 compares times: order of all time points of a report against the model's logical clock, "
                    "durations against the wall-clock bracket of the calls that started/finished the span (lower bound 3us + 2%, upper bound 20us + 2% slack), "
                    "begin times against the wall-clock window of the creating call (50 ms slack)",
